@@ -72,7 +72,9 @@ pub fn cfg_event(sc: &Scenario, t: u64) -> Value {
         "synthetic": false,
         "nat_at": sc.topo.paths.first().map_or_else(Vec::new, |p| p.hops.iter().enumerate().filter(|(_, h)| h.nat > 0).map(|(i, _)| i + 1).collect::<Vec<_>>()),
         "nat_cell": sc.fam == 4 && sc.proto == "udp" && sc.strat == "dublin",
-        "dublin6": sc.strat == "dublin" && sc.fam == 6})
+        "dublin6": sc.strat == "dublin" && sc.fam == 6,
+        "regrow": sc.regrow, "change_round": sc.topo.change_round,
+        "dist_after": sc.topo.paths_after.first().map_or(0, |p| p.dist)})
 }
 
 fn kind_code(t: IcmpPacketType) -> (&'static str, i64) {
@@ -181,6 +183,15 @@ pub fn snap_event(st: &State, full: bool, t: u64) -> Value {
         "rc":st.round_count(f0),"round":st.round(f0).map_or(-1, |r| r as i64),
         "nflows":st.flows().len(),"round_flow":st.round_flow_id().0,
         "err":st.error().is_some()});
+    {
+        // the flow the latest round was attributed to
+        let rf = st.round_flow_id();
+        let o = v.as_object_mut().unwrap();
+        let fh: Vec<Value> = st.hops_for_flow(rf).iter().map(|h| hop_json(h, false, st, rf)).collect();
+        o.insert("fhops".into(), json!(fh));
+        o.insert("ftgt_ttl".into(), json!(st.target_hop(rf).ttl()));
+        o.insert("frc".into(), json!(st.round_count(rf)));
+    }
     if full {
         let o = v.as_object_mut().unwrap();
         let flows: Vec<Value> = st
